@@ -20,7 +20,7 @@ On(g) == g \notin Ablate
 
 SafeHead(q) == IF q = <<>> THEN "?" ELSE Head(q)
 SafeTail(q) == IF q = <<>> THEN <<>> ELSE Tail(q)
-NoDigest == [k |-> "-", to |-> {}, v |-> 0, x |-> "-", blk |-> "-", pv |-> -1, px |-> "-", ps |-> {}, votes |-> {}]
+NoDigest == [k |-> "-", h |-> 0, to |-> {}, v |-> 0, x |-> "-", blk |-> "-", pv |-> -1, px |-> "-", ps |-> {}, votes |-> {}]
 Others(h, n) == Members(h) \ {n}
 
 FreshNS(h) == [h |-> h, view |-> 0, prepared |-> -1, committed |-> FALSE, lastnv |-> 0, member |-> TRUE,
@@ -29,7 +29,7 @@ InitFull == [ns |-> [FreshNS(0) EXCEPT !.member = FALSE], cache |-> [h |-> 0, ms
 
 \* R: running result of one step
 NewR(ns, proposed) == [ns |-> ns, out |-> <<>>, commit |-> "-", vals |-> <<>>, proposed |-> proposed]
-Send(R, d) == [R EXCEPT !.out = Append(@, d)]
+Send(R, d) == [R EXCEPT !.out = Append(@, [d EXCEPT !.h = R.ns.h])]     \* a node sends for the height of the term that is sending
 
 HasPP(ns, v)  == \E p \in ns.pp : p.v = v
 ThePP(ns, v)  == CHOOSE p \in ns.pp : p.v = v
